@@ -1134,6 +1134,8 @@ impl BitVectorMut {
             return;
         }
 
+        // the bits being overwritten no longer count
+        self.n_ones -= unsafe { self.get_bits_unchecked(index, len) }.count_ones() as usize;
         self.n_ones += bits.count_ones() as usize;
 
         // let mask = if len == 64 {
